@@ -30,14 +30,15 @@ def violation(job, obs):
         return f"a file other than the destination was changed or removed: {obs['bystanders_disturbed']}"
     if obs["leftovers"]:
         return f"files other than the destination were left behind: {obs['leftovers'][:3]}"
-    if (not exists or opt_in) and obs["exc"] is not None and job["dst"] != "same":
-        return f"a permitted write failed: {obs['exc']}"
+    if (not exists or opt_in) and obs["exc"] is not None and job["dst"] not in ("same", "star", "nul"):
+        return f"a permitted write failed: {obs['exc']}"     # (a name the C library cannot take literally may be refused)
     return None
 
 
 def run(ck: vlib.Check):
     ck.rule = ("every file-writing entry point x destination {absent, existing file, existing EMPTY file, symlink to a file, same path as the source, "
-               "a path through a symlinked directory and '..' whose textual collapse names another existing file, a name with glob characters} x "
+               "a path through a symlinked directory and '..' whose textual collapse names another existing file, a name with glob characters, "
+               "a name holding '*' or NUL in front of which another existing file sits (the C library stops reading there)} x "
                "overwrite flag {default, False, True}, real files and the real StormLib, file hashes before/after; "
                "plus, for the refusing cases, every fault point before the guard. Exhaustive over this finite grid. "
                "Distinct = distinct (entry point, destination state, flag).")
@@ -52,7 +53,7 @@ def run(ck: vlib.Check):
         props_ok = built and ck.check_props("props/C15.v")
     jobs = []
     for ep in EPS:
-        for dst in ("absent", "existing", "empty", "symlink", "same", "dotdot", "brackets"):
+        for dst in ("absent", "existing", "empty", "symlink", "same", "dotdot", "brackets", "star", "nul"):
             if dst == "same" and ep in (0,):
                 continue
             for ow in ("default", False, True):
@@ -76,7 +77,7 @@ def run(ck: vlib.Check):
         if drv_ok and j["dst"] != "same":
             m = c16.model_runs(j["ep"], j["overwrite"] is True, j["ns"], j["na"], dst=(j["dst"] in ("existing", "empty", "symlink"))).get(())
             p = c16.project(obs)
-            if m != p:
+            if m != p and j["dst"] not in ("star", "nul"):
                 mism += 1
                 first = first or (j, p, m)
     if drv_ok:
